@@ -68,4 +68,11 @@ def delaysFrom (p : Policy) : Nat → Nat → List Nat
 
 def delays (p : Policy) : List Nat := delaysFrom p p.count 1
 
+/-- the signals whose number is the same on Linux, macOS, FreeBSD and illumos, by their POSIX names (`signal(7)`): the only
+    numbers a name may be shown for on every platform (7, 10, 12 and 16 … 31 differ between them) -/
+def portableSignalName : Nat → Option String
+  | 1 => some "HUP" | 2 => some "INT" | 3 => some "QUIT" | 4 => some "ILL" | 5 => some "TRAP" | 6 => some "ABRT"
+  | 8 => some "FPE" | 9 => some "KILL" | 11 => some "SEGV" | 13 => some "PIPE" | 14 => some "ALRM" | 15 => some "TERM"
+  | _ => none
+
 end NextestModel.Classify
